@@ -347,10 +347,12 @@ func (t *sseClientTransport) handleResponse(data string) {
 	// Get the response ID as a string.
 	idStr := requestIDKey(response.ID)
 
-	// Find the corresponding response channel.
+	// Find the corresponding response channel. The read lock is held until the
+	// response has been handed over: close() closes the channels under the write
+	// lock, and a send must not meet a channel that is being closed.
 	t.responsesMu.RLock()
+	defer t.responsesMu.RUnlock()
 	responseChan, ok := t.responses[idStr]
-	t.responsesMu.RUnlock()
 
 	if !ok {
 		if t.logger != nil {
